@@ -38,6 +38,7 @@ fn main() {
         "C08" => props::c08::run(&cfg),
         "C09" => props::c09::run(&cfg),
         "C10" => props::c10::run(&cfg),
+        "C11" => props::c11::run(&cfg),
         "C13" => props::c13::run(&cfg),
         "C14" => props::c14::run(&cfg),
         "C15" => props::c15::run(&cfg),
